@@ -6,7 +6,10 @@ use std::thread;
 use anyhow::Context;
 use hyper_util::rt::TokioIo;
 use hyper_util::server::graceful::GracefulShutdown;
+#[cfg(not(pavex_verif))]
 use tokio::net::TcpStream;
+#[cfg(pavex_verif)]
+use super::sim::TcpStream;
 use tokio::sync::mpsc::error::TrySendError;
 use tracing_log_error::log_error;
 
@@ -129,6 +132,11 @@ where
     pub(super) fn spawn(self) -> Result<thread::JoinHandle<()>, anyhow::Error> {
         let id = self.id;
         let name = || format!("pavex-worker-{id}");
+        #[cfg(pavex_verif)]
+        if super::sim::is_installed() {
+            super::sim::spawn_thread(name(), Box::new(move || Box::pin(self.run())));
+            return Ok(thread::spawn(|| {}));
+        }
         thread::Builder::new()
             .name(name())
             .spawn(move || {
@@ -161,6 +169,8 @@ where
             let message =
                 poll_fn(|cx| Self::poll_inboxes(cx, &mut shutdown_inbox, &mut connection_inbox))
                     .await;
+            #[cfg(pavex_verif)]
+            super::sim::preempt("worker:after-poll-inboxes");
             match message {
                 WorkerInboxMessage::Connection(connection) => {
                     Self::handle_connection(
@@ -178,7 +188,11 @@ where
                     match mode {
                         ShutdownMode::Graceful { timeout } => {
                             // Stop accepting new connections.
+                            #[cfg(pavex_verif)]
+                            super::sim::preempt("worker:before-close");
                             connection_inbox.close();
+                            #[cfg(pavex_verif)]
+                            super::sim::preempt("worker:after-close");
 
                             // Kick-off work for all pending connections.
                             while let Some(connection) = connection_inbox.recv().await {
@@ -190,12 +204,16 @@ where
                                 );
                             }
 
+                            #[cfg(pavex_verif)]
+                            super::sim::preempt("worker:before-graceful");
                             // Wait for all live connections to be closed or for the timeout to expire.
                             let _ = tokio::time::timeout(timeout, shutdown_coordinator.shutdown())
                                 .await;
                         }
                         ShutdownMode::Forced => {}
                     }
+                    #[cfg(pavex_verif)]
+                    super::sim::preempt("worker:before-notify");
                     let _ = completion_notifier.send(());
                     break 'event_loop;
                 }
@@ -218,6 +236,8 @@ where
             connection,
             peer_addr,
         } = connection_message;
+        #[cfg(pavex_verif)]
+        super::sim::event("worker:handle-connection", Some(peer_addr));
         // A tiny bit of glue to adapt our handler to hyper's service interface.
         let handler = hyper::service::service_fn(move |request| {
             let state = application_state.clone();
